@@ -20,6 +20,7 @@ package main
 import (
 	"fmt"
 	"strings"
+	"time"
 	"unicode/utf8"
 
 	"golang.org/x/text/encoding/japanese"
@@ -38,7 +39,9 @@ func init() {
 		}
 		suites[prop] = func(c *Ctx) {
 			prev(c)
+			t0 := time.Now()
 			f(c)
+			c.Remark(fmt.Sprintf("timing: c01multi additions to %s %.1fs", prop, time.Since(t0).Seconds()))
 		}
 	}
 	wrap("C01", func(c *Ctx) {
